@@ -332,6 +332,17 @@ func hInstanceP(keyhex string, sip string, proto string, permits int) *portalwir
 	return inst
 }
 
+// hInstanceDrop forgets an instance whose transport no longer makes progress (a discv5 call that never returns): the
+// next case with the same parameters gets a fresh one.  The old instance is left alone (closing it could block too).
+func hInstanceDrop(inst *portalwire.VerifHInstance) {
+	for k, i := range hInsts {
+		if i == inst {
+			delete(hInsts, k)
+		}
+	}
+	delete(hStores, inst)
+}
+
 func hKeyHex(k *ecdsa.PrivateKey) string { return fmt.Sprintf("%064x", k.D) }
 
 // hBucket is the bit length of n (histogram bucket).
@@ -345,8 +356,9 @@ func hBucket(n int) int {
 }
 
 type c11ins struct {
-	enr  []byte
-	live bool
+	enr   []byte
+	live  bool
+	reval bool // not an insertion: the outcome of a liveness check of that node is delivered (live = it answered)
 }
 
 func c11insStr(ins []c11ins) string {
@@ -360,6 +372,9 @@ func c11insStr(ins []c11ins) string {
 			l = 1
 		}
 		p[i] = fmt.Sprintf("%x:%d", x.enr, l)
+		if x.reval {
+			p[i] = "R" + p[i]
+		}
 	}
 	return strings.Join(p, ",")
 }
@@ -369,8 +384,9 @@ func c11parseIns(s string) []c11ins {
 		return out
 	}
 	for _, p := range strings.Split(s, ",") {
-		q := strings.Split(p, ":")
-		out = append(out, c11ins{unhx(q[0]), q[1] == "1"})
+		rv := strings.HasPrefix(p, "R")
+		q := strings.Split(strings.TrimPrefix(p, "R"), ":")
+		out = append(out, c11ins{unhx(q[0]), q[1] == "1", rv})
 	}
 	return out
 }
@@ -394,7 +410,10 @@ func hUncheckedEndpoints(ins []c11ins) map[enode.ID][]hEndpoint {
 			continue
 		}
 		if _, ok := checked[n.ID()]; !ok {
-			checked[n.ID()] = nil
+			checked[n.ID()] = append([]hEndpoint{}, hFillChecked[n.ID()]...)
+		}
+		if x.reval {
+			continue
 		}
 		if x.live {
 			checked[n.ID()] = append(checked[n.ID()], hEndpoint{n.IPAddr(), n.UDP()})
@@ -440,14 +459,31 @@ func hFill(inst *portalwire.VerifHInstance, ins []c11ins) {
 	if err := inst.ResetTable(); err != nil {
 		panic(err)
 	}
+	hFillChecked = map[enode.ID][]hEndpoint{}
 	for _, x := range ins {
 		n, err := hNodeFromBytes(x.enr)
 		if err != nil {
 			continue
 		}
+		if x.reval {
+			if inst.RevalResponse(n.ID(), x.live) && x.live {
+				// the endpoint the table has for that node right now has just answered a liveness check
+				for _, b := range inst.Snapshot() {
+					for _, e := range b {
+						if e.Node.ID() == n.ID() {
+							hFillChecked[n.ID()] = append(hFillChecked[n.ID()], hEndpoint{e.Node.IPAddr(), e.Node.UDP()})
+						}
+					}
+				}
+			}
+			continue
+		}
 		inst.AddNode(n, x.live, false)
 	}
 }
+
+// hFillChecked: endpoints that answered a liveness check delivered during the last hFill (ground truth for hUncheckedEndpoints)
+var hFillChecked = map[enode.ID][]hEndpoint{}
 
 func (r *Rng) Pick2(xs []string) string { return xs[r.Intn(len(xs))] }
 
